@@ -1118,6 +1118,13 @@ def _(g):
     return [drain(lt), T(O("gmx2.deposit", g.name, {"long": {"f": f"wallet:{lt}", "x": "500"}, "short": {"f": f"wallet:{st}", "x": "0.1"}}), want_token=lt), refill(lt)]
 
 
+@entry("gmx2.deposit:single_token_pool:each_side_covered_alone", "gmx2", "wallet_short", needs={"single_token_pool": True})
+def _(g):
+    # a pool whose long and short token are the same token: each side is covered by the wallet, the two together are not
+    t = g.mw["long"]
+    return [T(O("gmx2.deposit", g.name, {"long": {"f": f"wallet:{t}", "x": g.rng.choice(["0.7", "0.6", "0.95"])}, "short": {"f": f"wallet:{t}", "x": g.rng.choice(["0.7", "0.6", "0.95"])}}), want_token=t)]
+
+
 @entry("gmx2.deposit:impact_exceeds_deposit", "gmx2", "impact_exceeds_deposit")
 def _(g):
     # a deposit into the heavy side of the pool large enough for the quadratic negative impact to exceed it
